@@ -30,7 +30,8 @@ CONFIGS = {
     "tm1":   dict(ASSERT=0, FILL=1, FENCE=0, LEAK=1, PTR=1, DOUBLE=0, TMODE=1),
 }
 
-WRAPS = ["malloc", "free", "mmap", "munmap", "mprotect", "madvise", "_ZnwmRKSt9nothrow_t", "_ZdlPv"]
+WRAPS = ["malloc", "free", "mmap", "munmap", "mprotect", "madvise", "_ZnwmRKSt9nothrow_t", "_ZdlPv",
+         "_ZSt15set_new_handlerPFvvE", "_ZSt15get_new_handlerv"]
 
 SAN_FLAGS = {
     "asan": ["-O1", "-g1", "-fsanitize=address,undefined", "-fno-sanitize-recover=undefined",
